@@ -84,6 +84,18 @@ Proof.
 Qed.
 Print Assumptions C16_preserved_refuted_divider.
 
+(* 2''. an assignment that the cell refuses (two dividers with one number) changes nothing
+       (the state of the code after the repairs 2b787be and 5df37b2) *)
+Theorem C16_refused_geometry_unchanged :
+  forall g c e g', set_geom g c e = (g', RErr NumberConflict) -> g' = g.
+Proof. exact set_geom_conflict_atomic. Qed.
+Print Assumptions C16_refused_geometry_unchanged.
+
+Theorem C16_refused_divider_unchanged :
+  forall g c p isc d g', set_div g c p isc d = (g', RErr NumberConflict) -> g' = g.
+Proof. exact set_div_conflict_atomic. Qed.
+Print Assumptions C16_refused_divider_unchanged.
+
 (* 3. reverse look-ups are the filters over the forward links *)
 Theorem C16_reverse :
   forall g, Linked g ->
